@@ -843,7 +843,7 @@ func (w *World) check(r *vlib.Rand) {
 		}
 		c.Count("overlapping_op_pairs", int64(contended))
 		c.Distinct("op_orders", strings.Join(order, ""))
-		res, info := porcupine.CheckOperationsVerbose(model, ops, 45*time.Second)
+		res, info := porcupine.CheckOperationsVerbose(model, ops, 150*time.Second)
 		c.Count("partitions_checked", 1)
 		switch res {
 		case porcupine.Ok:
